@@ -22,43 +22,45 @@ From Coq Require Import List ZArith Bool.
 Import ListNotations.
 Open Scope Z_scope.
 
+(* The oracle is written once, over an arbitrary type D of "digests" with a decidable comparison:
+     D = Z           (extracted; sha1 prefixes computed by the harness from the REAL snapshots / outputs)
+     D = Store.tree  (proofs/OracleFacts.v: the model's own snapshots; theorem "the model meets the oracle") *)
+Section Oracle.
+Variable D : Type.
+Variable deq : D -> D -> bool.
+Variable dnone : D.     (* what an out-of-range set index reads as: for D = Z the value -2, distinct from every digest
+                           (>= 0) and from the sentinel -1 the harness uses for "the creating op raised" *)
+
 Record iobs := mkIobs {
-  io_kind : Z; io_set : Z; io_key : Z; io_out : Z; io_pristine : Z; io_digests : list Z
+  io_kind : Z; io_set : Z; io_key : D; io_out : D; io_pristine : D; io_digests : list D
 }.
 
-Fixpoint zlist_eqb (a b : list Z) : bool :=
-  match a, b with
-  | [], [] => true
-  | x :: ta, y :: tb => (x =? y) && zlist_eqb ta tb
-  | _, _ => false
-  end.
-
 (* the sets alive before the op are unchanged after it (the op may have appended new ones) *)
-Fixpoint prefix_same (before after : list Z) : bool :=
+Fixpoint prefix_same (before after : list D) : bool :=
   match before, after with
   | [], _ => true
-  | x :: ta, y :: tb => (x =? y) && prefix_same ta tb
+  | x :: ta, y :: tb => deq x y && prefix_same ta tb
   | _ :: _, [] => false
   end.
 
 (* ... except possibly the set with index j *)
-Fixpoint prefix_same_but (j : Z) (before after : list Z) : bool :=
+Fixpoint prefix_same_but (j : Z) (before after : list D) : bool :=
   match before, after with
   | [], _ => true
-  | x :: ta, y :: tb => ((j =? 0) || (x =? y)) && prefix_same_but (j - 1) ta tb
+  | x :: ta, y :: tb => ((j =? 0) || deq x y) && prefix_same_but (j - 1) ta tb
   | _ :: _, [] => false
   end.
 
-Definition znth (l : list Z) (i : Z) : Z := nth (Z.to_nat i) l (-1).
+Definition dnth (l : list D) (i : Z) : D := nth (Z.to_nat i) l dnone.
 
 (* seen: (key, digest of the written set, output) of the earlier writes *)
-Fixpoint conflicting (key dg out : Z) (seen : list (Z * Z * Z)) : bool :=
+Fixpoint conflicting (key dg out : D) (seen : list (D * D * D)) : bool :=
   match seen with
   | [] => false
-  | (k, d, o) :: t => ((k =? key) && (d =? dg) && negb (o =? out)) || conflicting key dg out t
+  | (k, d, o) :: t => (deq k key && deq d dg && negb (deq o out)) || conflicting key dg out t
   end.
 
-Fixpoint check_hist (c09 c10 : bool) (i : Z) (before : list Z) (seen : list (Z * Z * Z)) (l : list iobs)
+Fixpoint check_hist (c09 c10 : bool) (i : Z) (before : list D) (seen : list (D * D * D)) (l : list iobs)
   : list (Z * Z) :=
   match l with
   | [] => []
@@ -68,17 +70,28 @@ Fixpoint check_hist (c09 c10 : bool) (i : Z) (before : list Z) (seen : list (Z *
       let here :=
         if k =? 2 then
           (if c09 && negb (prefix_same before after) then [(i, 1)] else []) ++
-          (if c09 && conflicting (io_key o) (znth before (io_set o)) (io_out o) seen then [(i, 2)] else [])
+          (if c09 && conflicting (io_key o) (dnth before (io_set o)) (io_out o) seen then [(i, 2)] else [])
         else if k =? 1 then
           (if c10 && negb (prefix_same before after) then [(i, 3)] else []) ++
-          (if c10 && negb (znth after (io_set o) =? io_pristine o) then [(i, 4)] else [])
+          (if c10 && negb (deq (dnth after (io_set o)) (io_pristine o)) then [(i, 4)] else [])
         else if k =? 3 then
           (if c10 && negb (prefix_same_but (io_set o) before after) then [(i, 5)] else [])
         else
           (if c10 && negb (prefix_same before after) then [(i, 6)] else []) in
-      let seen' := if k =? 2 then (io_key o, znth before (io_set o), io_out o) :: seen else seen in
+      let seen' := if k =? 2 then (io_key o, dnth before (io_set o), io_out o) :: seen else seen in
       here ++ check_hist c09 c10 (i + 1) after seen' t
   end.
 
-Definition ok_c09 (l : list iobs) : list (Z * Z) := check_hist true false 0 [] [] l.
-Definition ok_c10 (l : list iobs) : list (Z * Z) := check_hist false true 0 [] [] l.
+End Oracle.
+
+Arguments mkIobs {D} _ _ _ _ _ _.
+Arguments io_kind {D} _.
+Arguments io_set {D} _.
+Arguments io_key {D} _.
+Arguments io_out {D} _.
+Arguments io_pristine {D} _.
+Arguments io_digests {D} _.
+
+(* the extracted instance: digests are integers *)
+Definition ok_c09 (l : list (iobs Z)) : list (Z * Z) := check_hist Z Z.eqb (-2) true false 0 [] [] l.
+Definition ok_c10 (l : list (iobs Z)) : list (Z * Z) := check_hist Z Z.eqb (-2) false true 0 [] [] l.
